@@ -25,6 +25,8 @@ func c01(c *core.Check) {
 	c01Recursion(c)
 	r8 := c.Rule("R8", "the SVG path interpreter indexes its argument list only behind hasSetsOrMore(sz, …), which returns true only for a list of at least sz numbers made of whole groups of sz (an index error while drawing is a crash of the render)", 3)
 	groupGuardRule(c, r8)
+	r9 := c.Rule("R9", "the running quote depth, which indexes the quotes list, never becomes negative: every store into quoteDepth[0] is clamped at 0, adds a positive constant, or subtracts under a test that the depth is large enough", 2)
+	counterCellRule(c, r9)
 
 	p := c.Prog
 	r4 := c.Rule("R4", "no nil dereference the code itself anticipates: every method call through ComputedStyle.parentStyle (nil on the root element) is dominated by a nil / root test; no comma-ok type assertion to a pointer or interface discards its ok result and then dereferences the value without a nil test (module-wide)", 6)
